@@ -97,7 +97,18 @@ def main():
         captured.clear()
         try:
             with contextlib.redirect_stdout(buf), contextlib.redirect_stderr(buf):
-                C.compiler(job["base"], list(job["args"]), job["out"], job["save"], job.get("fixed"), job["synth"], job.get("includes"))
+                if job.get("cli"):
+                    # through the command-line entry point (option parsing, defaults, argument evaluation)
+                    argv = ["pepper-compiler"] + ([] if job["synth"] else ["--des"]) + ["--output", job["out"], "--save", job["save"]]
+                    if job.get("fixed"): argv += ["--fixed", job["fixed"]]
+                    for inc in job.get("includes") or []: argv += ["-I", inc]
+                    argv += [job["base"]] + [str(a) for a in job["args"]]
+                    old_argv = sys.argv
+                    sys.argv = argv
+                    try: C.main()
+                    finally: sys.argv = old_argv
+                else:
+                    C.compiler(job["base"], list(job["args"]), job["out"], job["save"], job.get("fixed"), job["synth"], job.get("includes"))
             res.update(outcome="ok", text=open(job["out"]).read())
             if job.get("dump") and "obj" in captured:
                 res["memory_dump"] = dump_graph(captured["obj"])
